@@ -114,7 +114,15 @@ def render_xlsx(grid, *, opts=None, images=None) -> bytes:
             parts[f"xl/drawings/drawing{pn}.xml"] = (f'<?xml version="1.0" encoding="UTF-8" standalone="yes"?><xdr:wsDr xmlns:xdr="http://schemas.openxmlformats.org/drawingml/2006/spreadsheetDrawing" xmlns:a="{ooxml.A}">'
                                                      + "".join(anchors) + "</xdr:wsDr>")
             parts[f"xl/drawings/_rels/drawing{pn}.xml.rels"] = ooxml._rels(drels)
-            parts[f"xl/worksheets/_rels/sheet{pn}.xml.rels"] = ooxml._rels([("rId1", ooxml.RT + "drawing", f"../drawings/drawing{pn}.xml", False)])
+            srels = [("rId1", ooxml.RT + "drawing", f"../drawings/drawing{pn}.xml", False)]
+            if opts.get("vml_first"):
+                # a sheet with cell comments also has a legacy VML drawing and a comments part; Excel often lists them before the picture drawing
+                srels = [("rId8", ooxml.RT + "vmlDrawing", f"../drawings/vmlDrawing{pn}.vml", False), ("rId9", ooxml.RT + "comments", f"../comments{pn}.xml", False)] + srels
+                parts[f"xl/drawings/vmlDrawing{pn}.vml"] = '<xml xmlns:v="urn:schemas-microsoft-com:vml" xmlns:o="urn:schemas-microsoft-com:office:office"><o:shapelayout v:ext="edit"/></xml>'
+                parts[f"xl/comments{pn}.xml"] = ('<?xml version="1.0" encoding="UTF-8" standalone="yes"?><comments xmlns="http://schemas.openxmlformats.org/spreadsheetml/2006/main"><authors><author>vf</author></authors>'
+                                                 '<commentList><comment ref="A1" authorId="0"><text><r><t>ZX0CMT1</t></r></text></comment></commentList></comments>')
+                over.append(f'<Override PartName="/xl/comments{pn}.xml" ContentType="application/vnd.openxmlformats-officedocument.spreadsheetml.comments+xml"/>')
+            parts[f"xl/worksheets/_rels/sheet{pn}.xml.rels"] = ooxml._rels(srels)
             over.append(f'<Override PartName="/xl/drawings/drawing{pn}.xml" ContentType="application/vnd.openxmlformats-officedocument.drawing+xml"/>')
             drawing_ref = '<drawing r:id="rId1"/>'
         parts[f"xl/worksheets/sheet{pn}.xml"] = (f'<?xml version="1.0" encoding="UTF-8" standalone="yes"?><worksheet xmlns="{MAIN}" xmlns:r="{ooxml.R}"><dimension ref="{dim}"/>'
@@ -226,18 +234,44 @@ def render_ods(grid, *, opts=None, images=None) -> bytes:
                 cells.append(f'<table:table-cell table:number-columns-repeated="{c0}"/>' if c0 > 1 else "<table:table-cell/>")
             # run-length encode empty cells as LibreOffice does
             run = 0
+            prev, prev_n = None, 0
+
+            def flush_prev():
+                nonlocal prev, prev_n
+                if prev is not None:
+                    x = _ods_cell(prev)
+                    # equal neighbouring values are stored once with a repeat count, the way LibreOffice writes them
+                    cells.append(x.replace("<table:table-cell ", f'<table:table-cell table:number-columns-repeated="{prev_n}" ', 1) if prev_n > 1 else x)
+                prev, prev_n = None, 0
             for cell in row:
                 if cell is None:
+                    flush_prev()
                     run += 1
                     continue
                 if run:
                     cells.append(f'<table:table-cell table:number-columns-repeated="{run}"/>' if run > 1 else "<table:table-cell/>")
                     run = 0
+                if opts.get("rle"):
+                    if prev is not None and cell == prev:
+                        prev_n += 1
+                    else:
+                        flush_prev()
+                        prev, prev_n = cell, 1
+                    continue
                 cells.append(_ods_cell(cell))
+            flush_prev()
             if run:
                 cells.append(f'<table:table-cell table:number-columns-repeated="{run}"/>' if run > 1 else "<table:table-cell/>")
             body.append(f"<table:table-row>{''.join(cells)}</table:table-row>")
         hdr = sh.get("hdr_rows", 0)
+        if opts.get("rle") and not hdr:
+            merged = []
+            for b in body:                      # identical neighbouring rows are stored once with a repeat count
+                if merged and merged[-1][0] == b:
+                    merged[-1][1] += 1
+                else:
+                    merged.append([b, 1])
+            body = [b if n == 1 else b.replace("<table:table-row>", f'<table:table-row table:number-rows-repeated="{n}">', 1) for b, n in merged]
         rows_xml = "".join(rows) + (f"<table:table-header-rows>{''.join(body[:hdr])}</table:table-header-rows>" if hdr else "") + "".join(body[hdr:])
         shapes = ""
         sheet_imgs = [(k, im) for k, im in enumerate(images or []) if im.get("unit", 0) == len(tables)]
